@@ -129,9 +129,17 @@ func (w *world) synthesize() *synth {
 	for _, ev := range w.events {
 		switch ev.kind {
 		case "go":
-			s.emit("(go %d)", ev.pid)
+			if ev.dep >= 0 {
+				s.emit("(go %d %d)", ev.pid, ev.dep)
+			} else {
+				s.emit("(go %d)", ev.pid)
+			}
 		case "batch":
-			s.emit("(batch %d %d %d)", ev.k, ev.item, ev.pid)
+			if ev.dep >= 0 {
+				s.emit("(batch %d %d %d %d)", ev.k, ev.item, ev.pid, ev.dep)
+			} else {
+				s.emit("(batch %d %d %d)", ev.k, ev.item, ev.pid)
+			}
 		case "chain":
 			ws := make([]string, len(ev.waits))
 			for i, p := range ev.waits {
